@@ -17,7 +17,14 @@ package libp2pquic
 //@ noframe
 
 //@ func (t *transport) dialWithScope
-//@ prop C10
+//@ prop C10 C01
+// C01: the QUIC dial runs with the tls.Config that Identity.ConfigForPeer specialised for the dialled peer; the
+// connection reports that peer and a non-nil key taken from that config's channel
+//@ callsite ConfigForPeer#0 requires arg0 == t.identity && arg1 == p
+//@ callsite DialQUIC#0 requires arg3 == ret(ConfigForPeer, 0, 0)
 //@ ensures result1 == nil && t.gater != nil ==> called(InterceptSecured, 0) && ret(InterceptSecured, 0, 0) &&
 //@         arg(InterceptSecured, 0, 1) == network.DirOutbound && arg(InterceptSecured, 0, 2) == p && arg(InterceptSecured, 0, 3) == result0
+//@ ensures result1 == nil ==> called(DialQUIC, 0) && ret(DialQUIC, 0, 1) == nil && remotePubKey != nil && result0 == c &&
+//@         c.remotePubKey == remotePubKey && c.remotePeerID == p && c.quicConn == ret(DialQUIC, 0, 0)
+//@ ensures result1 == nil ==> recvd(keyCh) == 1 && remotePubKey == recvval(keyCh)
 //@ noframe
